@@ -57,7 +57,7 @@ def notebook(E, shape, tag, edit=0, src=0, symbolic=True):
     x = E.int("v_%s" % tag) if symbolic else 7 + edit
     val = shaped(x, shape, edit)
     js = shaped(x, shape, edit)
-    cell = {"cell_type": "code", "execution_count": None, "metadata": {"a": shaped(x, shape, edit)},
+    cell = {"cell_type": "code", "execution_count": 1 + edit, "metadata": {"a": shaped(x, shape, edit)},
             "source": G.SRC["A"][src],
             "outputs": [{"output_type": "display_data", "metadata": {},
                          "data": {"application/json": js, "text/plain": "<JSON>"}}]}
@@ -65,7 +65,8 @@ def notebook(E, shape, tag, edit=0, src=0, symbolic=True):
     return nbformat.from_dict(nb)
 
 
-CONFIGS = [dict(metadata=False), dict(outputs=False), dict(details=False, sources=False), dict()]
+CONFIGS = [dict(metadata=False), dict(outputs=False), dict(details=False, sources=False), dict(),
+           dict(identifier=False, details=False)]
 IGNORES = [{"/metadata": ["a"]}, {"/cells/*/outputs": True}, {"/metadata": False, "/cells/*/metadata": True}]
 
 
@@ -128,11 +129,17 @@ def run_op(E, op, tag, cache, symbolic=True):
 def outcome(E, ops, cache, only_last_and_config):
     fresh_nbdime()
     if only_last_and_config:
+        # the ignore options in force: reset_notebook_differ() clears them;
+        # set_notebook_diff_targets() sets every category, so it replaces
+        # whatever was in force (and with everything included nothing is
+        # ignored); set_notebook_diff_ignores() adds to what is in force
         cfg = []
         for op in ops[:-1]:
             if op[0] == "reset":
                 cfg = []
-            elif op[0] in ("cfg", "ign"):
+            elif op[0] == "cfg":
+                cfg = [op] if CONFIGS[op[1]] else []
+            elif op[0] == "ign":
                 cfg.append(op)
         seq = [(o, None) for o in cfg] + [(ops[-1], len(ops) - 1)]
     else:
